@@ -54,7 +54,8 @@ def alloc_sinks(run, ctx):
             if "from_elem" in cs:
                 size = args[1]
             where = "%s:%d" % (t["span"]["file"], t["span"]["line"])
-            key = (sp, cs)
+            # without the `std` feature the same functions are named through `alloc::` / `core::`
+            key = (sp, re.sub(r"^(alloc|core)::", "std::", cs))
             if key in MUST_GUARD:
                 # the size must be bounded by a value derived from the pattern length on every path to the sink
                 pf = pfs.setdefault(path, M.PointFacts(body))
